@@ -19,6 +19,35 @@ def sh(cmd, **kw):
     return subprocess.run(cmd, shell=True, capture_output=True, text=True, **kw)
 
 
+# Where patches are applied and what the checks analyse: /repo itself (default, as the brief describes), or with --scratch a
+# detached worktree of /repo's HEAD outside /repo and /verif (removed at exit) so that several runs do not disturb each other.
+TARGET = "/repo"
+CHECK_ENV = ""
+
+
+def use_scratch():
+    global TARGET, CHECK_ENV
+    import atexit
+    d = tempfile.mkdtemp(prefix="rtrverif.tgt.")
+    os.rmdir(d)
+    r = sh("git -C /repo worktree add -q --detach %s HEAD" % d)
+    assert r.returncode == 0, r.stderr
+    for h in ("rtrlib.h", "config.h"):
+        shutil.copy("/repo/rtrlib/" + h, os.path.join(d, "rtrlib", h))
+    TARGET = d
+    CHECK_ENV = "VERIF_SCRATCH_RUN=1 "
+
+    def cleanup():
+        sh("git -C /repo worktree remove --force %s" % d)
+        shutil.rmtree(d, ignore_errors=True)
+        sh("git -C /repo worktree prune")
+    atexit.register(cleanup)
+
+
+def check_cmd(prop):
+    return "cd %s && %s./check %s --tier quick%s" % (VERIF, CHECK_ENV, prop, "" if TARGET == "/repo" else " --repo " + TARGET)
+
+
 def ctest_failures(bdir):
     r = sh("ctest --test-dir %s -j8 --timeout 300" % bdir)
     failed = set()
@@ -105,18 +134,18 @@ def cmd_run(name, props):
             continue
         meta = json.load(open(os.path.join(d, "meta.json")))
         ps = allprops if props == "all" else ([meta["property"]] if props is None else props.split(","))
-        assert sh("git -C /repo status --porcelain --untracked-files=no").stdout.strip() == "", "/repo has uncommitted changes"
-        ra = sh("git -C /repo apply %s" % os.path.join(d, "patch.diff"))
+        assert sh("git -C %s status --porcelain --untracked-files=no" % TARGET).stdout.strip() == "", "/repo has uncommitted changes"
+        ra = sh("git -C %s apply %s" % (TARGET, os.path.join(d, "patch.diff")))
         det = {"applied": ra.returncode == 0, "repo_head": sh("git -C /repo rev-parse --short HEAD").stdout.strip(), "checks": {}}
         try:
             if ra.returncode == 0:
                 # build the program database once, then run the checks in parallel (they share the cache)
-                sh("cd %s && ./check %s --tier quick" % (VERIF, ps[0]), timeout=900)
+                sh(check_cmd(ps[0]), timeout=900)
                 from concurrent.futures import ThreadPoolExecutor
 
                 def one(p):
                     t0 = time.time()
-                    r = sh("cd %s && ./check %s --tier quick" % (VERIF, p), timeout=900)
+                    r = sh(check_cmd(p), timeout=900)
                     viol = [l for l in r.stdout.splitlines() if l.startswith("  violation:")]
                     broken = [l for l in r.stdout.splitlines() if l.startswith("ANALYSIS-BROKEN")]
                     return p, {"exit": r.returncode, "violations": [v.strip()[:300] for v in viol][:6], "broken": [b[:300] for b in broken],
@@ -125,7 +154,7 @@ def cmd_run(name, props):
                     for p, res in ex.map(one, ps):
                         det["checks"][p] = res
         finally:
-            sh("git -C /repo checkout -- .")
+            sh("git -C %s checkout -- ." % TARGET)
         caught = [p for p, v in det["checks"].items() if v["exit"] == 1]
         det["caught_by"] = caught
         json.dump(det, open(os.path.join(d, "detection.json"), "w"), indent=1)
@@ -170,14 +199,14 @@ def cmd_run_combos(which):
             rp = os.path.join(REFAC, r, "patch.diff")
             if not os.path.exists(rp) or not (files_of(rp) & mf):
                 continue
-            assert sh("git -C /repo status --porcelain --untracked-files=no").stdout.strip() == "", "/repo has uncommitted changes"
+            assert sh("git -C %s status --porcelain --untracked-files=no" % TARGET).stdout.strip() == "", "/repo has uncommitted changes"
             try:
-                a1 = sh("git -C /repo apply %s" % rp)
-                a2 = sh("git -C /repo apply %s" % os.path.join(md, "patch.diff")) if a1.returncode == 0 else a1
-                if a1.returncode != 0 or a2.returncode != 0 or "<<<<<<<" in sh("git -C /repo diff").stdout:
+                a1 = sh("git -C %s apply %s" % (TARGET, rp))
+                a2 = sh("git -C %s apply %s" % (TARGET, os.path.join(md, "patch.diff"))) if a1.returncode == 0 else a1
+                if a1.returncode != 0 or a2.returncode != 0 or "<<<<<<<" in sh("git -C %s diff" % TARGET).stdout:
                     continue        # the two changes overlap textually: no combination to test
                 # the combination must still compile
-                cc = sh("cd %s && VERIF_JOBS=8 ./check %s --tier quick" % (VERIF, prop), timeout=900)
+                cc = sh(check_cmd(prop), timeout=900)
                 viol = [l.strip()[:200] for l in cc.stdout.splitlines() if l.startswith("  violation:")]
                 results["%s+%s" % (r, m)] = {"exit": cc.returncode, "violations": viol[:2]}
                 flag = "" if cc.returncode == 1 else "   <-- NOT CAUGHT"
@@ -185,7 +214,7 @@ def cmd_run_combos(which):
                     rc = 1
                 print("%-10s + %-8s %s exit=%d%s" % (r, m, prop, cc.returncode, flag), flush=True)
             finally:
-                sh("git -C /repo reset -q --hard HEAD")
+                sh("git -C %s checkout -- ." % TARGET)
     json.dump(results, open(out, "w"), indent=1, sort_keys=True)
     return rc
 
@@ -240,22 +269,22 @@ def cmd_run_refactors(name):
         d = os.path.join(REFAC, n)
         if not os.path.exists(os.path.join(d, "patch.diff")):
             continue
-        assert sh("git -C /repo status --porcelain --untracked-files=no").stdout.strip() == "", "/repo has uncommitted changes"
-        ra = sh("git -C /repo apply %s" % os.path.join(d, "patch.diff"))
+        assert sh("git -C %s status --porcelain --untracked-files=no" % TARGET).stdout.strip() == "", "/repo has uncommitted changes"
+        ra = sh("git -C %s apply %s" % (TARGET, os.path.join(d, "patch.diff")))
         res = {"applied": ra.returncode == 0, "checks": {}}
         try:
             if ra.returncode == 0:
-                sh("cd %s && ./check %s --tier quick" % (VERIF, allprops[0]), timeout=900)
+                sh(check_cmd(allprops[0]), timeout=900)
 
                 def one(p):
-                    r = sh("cd %s && ./check %s --tier quick" % (VERIF, p), timeout=900)
+                    r = sh(check_cmd(p), timeout=900)
                     lines = [l for l in r.stdout.splitlines() if l.startswith("  violation:") or l.startswith("ANALYSIS-BROKEN")]
                     return p, {"exit": r.returncode, "lines": [l.strip()[:300] for l in lines][:5]}
                 with ThreadPoolExecutor(max_workers=8) as ex:
                     for p, r in ex.map(one, allprops):
                         res["checks"][p] = r
         finally:
-            sh("git -C /repo checkout -- .")
+            sh("git -C %s checkout -- ." % TARGET)
         alarms = {p: v for p, v in res["checks"].items() if v["exit"] != 0}
         res["alarms"] = sorted(alarms)
         json.dump(res, open(os.path.join(d, "result.json"), "w"), indent=1)
@@ -269,6 +298,9 @@ def cmd_run_refactors(name):
 
 
 if __name__ == "__main__":
+    if "--scratch" in sys.argv:
+        sys.argv.remove("--scratch")
+        use_scratch()
     if sys.argv[1] == "verify-refactor":
         sys.exit(cmd_verify_refactor(sys.argv[2], sys.argv[3]))
     if sys.argv[1] == "run-combos":
